@@ -292,7 +292,7 @@ Fixpoint unpack_v (k : pschema) (bits : list pyval) (pos : nat) {struct k} : G p
       let sl := firstn (bitlen_of m) (skipn pos bits) in
       match b0 with
       | PLC _ | PBool _ _ =>
-          (* ret = LinComb.from_bits(bits[pos:pos+bitlen]); ret.assert_lt(self.mod) *)
+          (* ret = LinComb.from_bits(bits[pos:pos+bitlen]); (self.mod - 1 - ret).assert_positive(self.bitlen()) *)
           match sl with
           | [] => static_raise AttributeError
           | x0 :: rest =>
@@ -300,7 +300,7 @@ Fixpoint unpack_v (k : pschema) (bits : list pyval) (pos : nat) {struct k} : G p
               r <- (fix go (acc : pyval) (bs : list pyval) (i : Z) : G pyval :=
                       match bs with [] => ret acc | b :: bs' => t <- op2 OMul b (PInt (2 ^ i)) ;; a <- op2 OAdd acc t ;; go a bs' (i + 1) end) a0 rest 1 ;;
               match r with
-              | PLC x => y <- ensurelc (PInt m) ;; assert_lt c x y ;;; ret r
+              | PLC x => assert_positive (rsubc (m - 1) x) (bitlen_of m) ;;; ret r
               | _ => static_raise AttributeError end
           end
       | _ => (* sum([(1<<ix)*v ...]) on plain ints *)
